@@ -1309,10 +1309,16 @@ class SVG:
     def _remove_orphaned_gradients(self):
         # remove orphaned templates, only keep gradients directly referenced by shapes
         used_gradient_ids = set()
-        for shape in self.shapes():
-            if shape.fill.startswith("url("):
+        fills = [shape.fill for shape in self.shapes()]
+        # text (kept with allow_text) is not a shape but can be painted with a gradient
+        fills.extend(
+            el.attrib.get("fill", "")
+            for el in self.xpath("//svg:text | //svg:tspan | //svg:textPath")
+        )
+        for fill in fills:
+            if fill.startswith("url("):
                 try:
-                    el = self.resolve_url(shape.fill, "*")
+                    el = self.resolve_url(fill, "*")
                 except ValueError:  # skip not found
                     continue
                 if strip_ns(el.tag) not in _GRADIENT_CLASSES:
@@ -1445,6 +1451,10 @@ class SVG:
         )
         if violations:
             raise ValueError("Unable to convert to picosvg: " + ",".join(violations))
+
+        if drop_unsupported:
+            # the elements just dropped may have been the only users of a gradient
+            self._remove_orphaned_gradients()
 
         return self
 
